@@ -325,6 +325,9 @@ def layouts_c01(rnd, quick):
                 pass
             mid = representable(16 + cc2 * 4)
             out.append(t2_desc(cc2, (i + 1) % 4, [(2, mid, rnd.choice([1, 3, 8]))], 7))
+    out.append(t2_desc(33, 7, (), 3))           # 257 bytes from the NDEF TLV to the end of the area
+    if not quick:
+        out.append(t2_desc(33, 6, (), 3))       # 258
     if quick:
         out.append(t2_desc(0x6D, 1, (), 300))
         out.append(t2_desc(0xFE, 3, (), 0, extra=32))
